@@ -407,6 +407,11 @@ type World struct {
 	cur      map[string]*Acct // model of the head state
 	height   uint64
 	Counts   map[string]int
+
+	// Monotone makes Commit avoid every node-hash revisit: no account removal, no code change after block 0, no
+	// slot deletion / flip-flop / restore, and every written slot value is unique
+	Monotone bool
+	uniq     int
 }
 
 // NewWorld creates an empty chain; the first Commit creates the genesis-like block 0
@@ -478,7 +483,7 @@ func (w *World) Commit(rng *vk.Rand, initial bool, restore *Block) (*Block, erro
 		ai := rng.Intn(len(Addrs))
 		a := Addrs[ai]
 		m := nb[string(a)]
-		if !initial && m != nil && rng.Chance(1, 8) {
+		if !initial && !w.Monotone && m != nil && rng.Chance(1, 8) {
 			jl := adb.JournalLen()
 			if errR := adb.RemoveAccount(a); errR == nil {
 				delete(nb, string(a))
@@ -506,7 +511,7 @@ func (w *World) Commit(rng *vk.Rand, initial bool, restore *Block) (*Block, erro
 		_ = ua.AddToBalance(big.NewInt(1))
 		m.Bal++
 		d := fmt.Sprintf("A%d bal+1", ai)
-		if rng.Chance(1, 3) {
+		if rng.Chance(1, 3) && (initial || !w.Monotone) {
 			c := ""
 			if x := rng.Intn(len(Codes) + 1); x < len(Codes) {
 				c = Codes[x]
@@ -525,6 +530,10 @@ func (w *World) Commit(rng *vk.Rand, initial bool, restore *Block) (*Block, erro
 			v := StorVals[rng.Intn(len(StorVals))]
 			if rng.Chance(1, 4) && !initial {
 				v = ""
+			}
+			if w.Monotone {
+				w.uniq++
+				v = fmt.Sprintf("u%d", w.uniq)
 			}
 			if err = ua.DataTrieTracker().SaveKeyValue([]byte(k), []byte(v)); err != nil {
 				return nil, err
@@ -545,7 +554,7 @@ func (w *World) Commit(rng *vk.Rand, initial bool, restore *Block) (*Block, erro
 	}
 	// flip-flop inside one block: a slot is changed and restored, so the same node hashes are both obsoleted
 	// and re-created by this commit (the case removeDuplicatedKeys exists for)
-	if !initial && rng.Chance(1, 3) {
+	if !initial && !w.Monotone && rng.Chance(1, 3) {
 		var cands []int
 		for i, a := range Addrs {
 			if m := nb[string(a)]; m != nil && len(m.Stor) > 0 {
@@ -577,7 +586,7 @@ func (w *World) Commit(rng *vk.Rand, initial bool, restore *Block) (*Block, erro
 			w.Counts["flipflop"]++
 		}
 	}
-	if restore != nil && !initial && rng.Chance(1, 2) {
+	if restore != nil && !initial && !w.Monotone && rng.Chance(1, 2) {
 		type cand struct {
 			ai   int
 			k, v string
